@@ -338,6 +338,164 @@ def isOk {α} : Except String α → Bool
 def specImpl (fields : NSet) : Impl :=
   { len := fields.length, isEmpty := fields.isEmpty, exists_ := fields.contains, getSome := fields.contains, keys := fields }
 
+/-! ## the public API of `DSTSimulation` as a "subclass" uses it (family dst-api, preset sim)
+
+A generated scenario of API calls (codes in `c20_more.rs` `dst_api_script`) over a simulation built
+either by `new(seed).with_nodes(n).with_faults(fc)` (five nodes get clock offsets, `n` are used) or
+by `with_config`.  Per-node clock offsets are kept (they are what `context().local_time` applies),
+BUGGIFY checks and triggers are counted (what a FRESH process copies into
+`SimulationResult::buggify_stats`), crashes are counted by reason. -/
+
+structure ApiSt where
+  d : Dst Rng
+  /-- (fixed_offset_ms, drift_ppm) per node that got one in `with_config` -/
+  offs : List (Int × Int) := []
+  checks : Nat := 0
+  triggers : Nat := 0
+  /-- crashes by reason: 0 BuggifyTriggered, 1 NetworkIsolation, 2 OutOfMemory, 3 PowerFailure (alphabetical) -/
+  reasons : NMap Nat := []
+  opCounter : Nat := 0
+  writes : Nat := 0
+  cas : Nat := 0
+  hist : List (Nat × Nat) := []
+
+structure ApiCfg where
+  dst : DstCfg
+  /-- nodes registered (and given clock offsets) by the constructor: 5 for `new(seed)` -/
+  initNodes : Nat
+  skewMs : Nat
+  driftPpm : Nat
+
+abbrev AM := StateT ApiSt (Except String)
+
+def aRange (lo hi : Nat) : AM Nat := fun s =>
+  match range lo hi s.d.g with
+  | .ok (v, g) => .ok (v, { s with d := { s.d with g := g } })
+  | .error e => .error e
+
+def apiInit (c : ApiCfg) (g : Rng) : Except String ApiSt := do
+  let (offs, g) ← (List.range c.initNodes).foldlM (fun (acc : List (Int × Int) × Rng) _ => do
+    if c.dst.skew then
+      let (o, g) ← range 0 (2 * c.skewMs) acc.2
+      let (dr, g) ← range 0 (2 * c.driftPpm) g
+      pure (acc.1 ++ [((o : Int) - c.skewMs, (dr : Int) - c.driftPpm)], g)
+    else pure acc) (([] : List (Int × Int)), g)
+  pure { d := { g := g, nodes := List.replicate (max c.dst.n c.initNodes) .running }, offs := offs }
+
+def runningOf (c : ApiCfg) (s : ApiSt) : List Nat :=
+  (List.range c.dst.n).filter fun i => s.d.nodes.getD i .running == .running
+
+/-- `random_running_node()` -/
+def apiRandomRunning (c : ApiCfg) : AM (Option Nat) := do
+  let running := runningOf c (← get)
+  if running.isEmpty then pure none
+  else
+    let idx ← aRange 0 running.length
+    pure (some (running.getD idx 0))
+
+def showOptNat : Option Nat → String
+  | some n => s!"Some({n})"
+  | none => "None"
+
+def bumpReason (code : Nat) (s : ApiSt) : ApiSt := { s with reasons := NMap.insertWith (· + ·) code 1 s.reasons }
+
+/-- one API call; returns its description -/
+def apiOp (c : ApiCfg) (code a b : Nat) : AM String := do
+  match code with
+  | 0 => do let r ← apiRandomRunning c; pure s!"random_running_node {showOptNat r}"
+  | 1 => do
+    let s ← get
+    if c.dst.enableCrash && s.d.nodes.getD a .running == .running then
+      match crashDecision chacha c.dst s.d.g with
+      | .error e => throw e
+      | .ok (t, g) =>
+        if t then
+          let d' : Dst Rng := { s.d with g := g, nodes := s.d.nodes.set a (.crashed s.d.now), crashes := s.d.crashes + 1 }
+          set (bumpReason 0 { s with d := d', checks := s.checks + 1, triggers := s.triggers + 1 })
+          pure s!"maybe_crash_node {a} true"
+        else
+          set { s with d := { s.d with g := g }, checks := s.checks + 1 }
+          pure s!"maybe_crash_node {a} false"
+    else pure s!"maybe_crash_node {a} false"
+  | 2 => do
+    let s ← get
+    if s.d.nodes.getD a .running == .running then
+      -- reason codes of the script: 0 PowerFailure, 1 OutOfMemory, 2 NetworkIsolation
+      let rc := if b == 0 then 3 else if b == 1 then 2 else 1
+      set (bumpReason rc { s with d := { s.d with nodes := s.d.nodes.set a (.crashed s.d.now), crashes := s.d.crashes + 1 } })
+    pure s!"crash_node {a}"
+  | 3 => do
+    let s ← get
+    if (s.d.nodes.getD a .running).isCrashed then
+      let dur ← aRange c.dst.minRec c.dst.maxRec
+      modify fun s => { s with d := { s.d with nodes := s.d.nodes.set a (.recovering s.d.now (s.d.now + dur)) } }
+    pure s!"start_recovery {a} checkpoint=false"
+  | 4 => do
+    modify fun s =>
+      let now := s.d.now + a
+      let (nodes, rec) := completeRecoveries now s.d.nodes
+      { s with d := { s.d with now := now, nodes := nodes, recoveries := s.d.recoveries + rec } }
+    pure s!"advance_time {a}"
+  | 5 => do
+    let s ← get
+    match dstStep chacha c.dst (List.range (max c.dst.n c.initNodes)) s.d with
+    | .error e => throw e
+    | .ok d' =>
+      let trig := d'.crashes - s.d.crashes
+      let running := ((List.range c.dst.n).filter fun i => d'.nodes.getD i .running == .running).length
+      set (({ s with d := d', checks := s.checks + (if c.dst.enableCrash then running + trig else 0), triggers := s.triggers + trig,
+                     reasons := if trig > 0 then NMap.insertWith (· + ·) 0 trig s.reasons else s.reasons }) : ApiSt)
+      pure "step"
+  | 6 => do
+    let id := (← get).opCounter + 1
+    modify fun s => { s with opCounter := id }
+    let node ← apiRandomRunning c
+    modify fun s => { s with writes := s.writes + (if a == 0 then 1 else 0), cas := s.cas + (if a == 0 then 0 else 1),
+                             hist := s.hist ++ [(id, node.getD 0)] }
+    pure s!"record_operation id={id} node={showOptNat node}"
+  | 7 => do let v ← aRange 0 1000; pure s!"rng {v}"
+  | _ => do
+    let s ← get
+    let loc := match s.offs[a]? with
+      | some (f, p) => SimKernel.clockApply f p 0 s.d.now
+      | none => s.d.now
+    pure s!"local_time {a} {loc} ctx_now={s.d.now}"
+
+def apiStateText (c : ApiCfg) (s : ApiSt) : String :=
+  let st := String.join ((List.range c.dst.n).map fun i => match s.d.nodes.getD i .running with
+    | .running => "R" | .crashed _ => "C" | .recovering _ _ => "V")
+  let rec_ := (List.range s.d.nodes.length).filter fun i => match s.d.nodes.getD i .running with | .recovering _ _ => true | _ => false
+  s!"now={s.d.now} {st} recovering=[{", ".intercalate (rec_.map toString)}]"
+
+def apiLoop (c : ApiCfg) : Nat → List (Nat × Nat × Nat) → List String → AM (List String)
+  | _, [], acc => pure acc
+  | k, (code, a, b) :: rest, acc => do
+    let l ← apiOp c code a b
+    let s ← get
+    apiLoop c (k + 1) rest (s!"{k} {l} {apiStateText c s}" :: acc)
+
+def reasonName : Nat → String
+  | 0 => "BuggifyTriggered" | 1 => "NetworkIsolation" | 2 => "OutOfMemory" | _ => "PowerFailure"
+
+def runDstApi (seed : Nat) (c : ApiCfg) (script : List (Nat × Nat × Nat)) : Except String (List String) := do
+  let s0 ← apiInit c (Rng.new seed.toUInt64)
+  let (acc, s) ← (apiLoop c 1 script []).run s0
+  let total := s.d.ops + s.writes + s.cas
+  let byType := ",".intercalate ((if s.cas > 0 then [s!"CompareAndSwap={s.cas}"] else []) ++ (if s.writes > 0 then [s!"Write={s.writes}"] else []))
+  let hist := ", ".intercalate (s.hist.map fun p => s!"({p.1}, {p.2})")
+  let res := s!"result Seed {seed}: {total} ops in {s.d.now}ms, {s.d.crashes} crashes, {s.d.recoveries} recoveries, linearizable=true, converged=true, errors=0 by_type={byType} history=[{hist}]"
+  let byReason := ",".intercalate (s.reasons.map fun p => s!"{reasonName p.1}={p.2}")
+  let cs := s!"crash-stats crashes={s.d.crashes} recoveries={s.d.recoveries} by_reason={byReason} loss=0"
+  let showStat (n : Nat) : String := if n == 0 then "" else s!"process.crash={n}"
+  -- merged = the statistics merged into an empty one twice, plus one recorded check
+  let bs := s!"buggify-summary crash_checks={s.checks} triggers={s.triggers} | merged checks={showStat (2 * s.checks + 1)} triggers={showStat (2 * s.triggers)}"
+  pure (acc.reverse ++ [res, cs, bs])
+
+def triplesOfNats : List Nat → Option (List (Nat × Nat × Nat))
+  | [] => some []
+  | a :: b :: c :: rest => (triplesOfNats rest).map ((a, b, c) :: ·)
+  | _ => none
+
 /-! ## a final-state accessor that lists a `HashMap` -/
 
 /-- `SimulatedNode::get_all_deltas()`: the keys of `replicated_keys` in map order `pi`; sorted by
@@ -369,6 +527,9 @@ def runLines (harness : String) (seed ops : Nat) (cfg : List Nat) : Option (Exce
     some (runRedisDst seed ops ⟨⟨n, prob, en == 1, skew == 1, sr, dr, minR, maxR, maxT, sorted == 1⟩, manual == 1, dist⟩ (List.range n))
   | "scenario-timing", en :: bits :: evict :: rest =>
     (opsOfNats rest).map fun script => runScenario seed ⟨en == 1, F64.ofBits bits, evict⟩ script
+  | "dst-api", n :: initN :: prob :: en :: skew :: skewMs :: driftPpm :: minR :: maxR :: sorted :: rest =>
+    (triplesOfNats rest).map fun script =>
+      runDstApi seed ⟨⟨n, prob, en == 1, skew == 1, 2 * skewMs, 2 * driftPpm, minR, maxR, 2 ^ 64, sorted == 1⟩, initN, skewMs, driftPpm⟩ script
   | "streaming-workload", [p1, p12, rid] => some (runWorkload false seed ops p1 p12 rid)
   | "compaction-workload", [p1, p12, rid] => some (runWorkload true seed ops p1 p12 rid)
   | _, _ => none
